@@ -406,7 +406,8 @@ Lemma EntOk_side evl evl' g w w' e en en' sd nw m :
      (is_discarded (e_ign en) = false -> g_get k (g_of g sd) = None ->
         s_ex (gs en' sd) = ExExists /\ s_hash (gs en' sd) = Some (ProvModel.o_data ob) /\
         s_path (gs en' sd) = Some (pstr (ProvModel.o_path ob)))) ->
-  (s_oid (gs en sd) = None -> s_path (gs en' sd) = None /\ s_hash (gs en' sd) = None /\ tchg (s_chg (gs en' sd)) = false) ->
+  (s_oid (gs en sd) = None -> s_path (gs en' sd) = None /\ s_hash (gs en' sd) = None /\ tchg (s_chg (gs en' sd)) = false /\
+                              (is_discarded (e_ign en) = false -> s_ex (gs en' sd) = ExUnknown)) ->
   EntOk evl' g w' e en'.
 Proof.
   intros [A B C] P Hot Hobj Hlgo Hpd Hnew Hnone.
@@ -416,11 +417,12 @@ Proof.
   - rewrite Pign. exact A.
   - destruct sd; simpl in *; [rewrite Pother, Poid|rewrite Poid, Pother]; exact B.
   - intros sd0. destruct (Bool.bool_dec sd0 sd) as [->|Hne].
-    + destruct (C sd) as [c1 c2 c3 c4]. constructor.
+    + destruct (C sd) as [c1 c2 c3 c5 c4]. constructor.
       * exact Hot.
       * rewrite Pforce. exact c2.
-      * rewrite Poid. intros Hn. destruct (c3 Hn) as (X1 & X2 & X3 & X4 & X5). destruct (Hnone Hn) as (Y1 & Y2 & Y3).
+      * rewrite Poid. intros Hn. destruct (c3 Hn) as (X1 & X2 & X3 & X4 & X5). destruct (Hnone Hn) as (Y1 & Y2 & Y3 & _).
         rewrite Pspath, Pshash. auto.
+      * rewrite Poid, Pign. intros Hn Hd. destruct (Hnone Hn) as (_ & _ & _ & Y4). apply Y4. exact Hd.
       * rewrite Poid. intros o Ho'. destruct (c4 o Ho') as (k & ob & -> & Hob & Hk & F).
         exists k, ob. split; [reflexivity|]. split; [rewrite Hobj; exact Hob|]. split; [exact Hk|].
         destruct (Hnew k ob Ho' Hob) as (N1 & N2 & N3 & N4 & N5).
@@ -446,7 +448,7 @@ Proof.
            split; [exact P1|]. split; [exact M1|]. split; [exact P3|]. split; [exact M2|]. split; [exact P5|]. split; [exact M3|].
            exists k', ob'. rewrite Hobj. auto.
     + assert (sd0 = negb sd) by (destruct sd0, sd; try reflexivity; contradiction). subst sd0.
-      destruct (C (negb sd)) as [c1 c2 c3 c4]. constructor; rewrite ?Pother; auto.
+      destruct (C (negb sd)) as [c1 c2 c3 c5 c4]. constructor; rewrite ?Pother, ?Pign; auto.
       intros o Ho'. destruct (c4 o Ho') as (k1 & ob1 & -> & Hob1 & Hk1 & F).
       exists k1, ob1. split; [reflexivity|]. split; [rewrite Hobj; exact Hob1|]. split; [exact Hk1|].
       assert (Hfl: flagP evl en (negb sd) k1 -> flagP evl' en' (negb sd) k1).
